@@ -11,7 +11,7 @@ Assembly (same style as `opm_xml_load_dump_id`):
 * `tdmMetaG` / `tdmMeta_eq`: `collect_metadata` as an explicit association list; its tags are pairwise
   distinct (`metaG_nodup`), its texts non-empty (`metaG_vals`), so `xml2dict` turns the `metadata`
   element into the list itself (`recurseKids_leaves`) and the reader's `mapM … .text` gives it back
-  (`mapM_text`);
+  (`mapM_metaText`);
 * participant numbering: `tdmPath_meta` (`PARTICIPANT_i` = i-th distinct name of the path, `PATH` =
   indices, the reader takes `participants[i-1]`);
 * `ANGLE_TYPE`: `obsWf_of_set` (a set with an azimuth or an elevation carries `AZEL` in its own
@@ -146,15 +146,15 @@ theorem metaG_vals (scale : String) (st sp : Txt) (parts : List String) (idx : L
 
 /-! ### leaves with distinct tags convert to the association list itself -/
 
-def leafOf (kv : String × Txt) : Elem := .leaf kv.1 [] kv.2
-def fieldOf (kv : String × Txt) : String × Val := (kv.1, .field kv.2 [])
+def metaLeaf (kv : String × Txt) : Elem := .leaf kv.1 [] kv.2
+def metaField (kv : String × Txt) : String × Val := (kv.1, .field kv.2 [])
 
-theorem leafOf_eq : (fun (x : String × Txt) => match x with | (k, v) => Elem.leaf k [] v) = leafOf := by
+theorem metaLeaf_eq : (fun (x : String × Txt) => match x with | (k, v) => Elem.leaf k [] v) = metaLeaf := by
   funext ⟨k, p⟩; rfl
 
 theorem recurseKids_leaves (kvs : List (String × Txt)) (d : Dict)
     (hv : ∀ kv ∈ kvs, kv.2 ≠ .s "") (hnd : (kvs.map (·.1)).Nodup) (hd : ∀ kv ∈ kvs, d.lookup kv.1 = none) :
-    recurseKids (kvs.map leafOf) d = some (d ++ kvs.map fieldOf) := by
+    recurseKids (kvs.map metaLeaf) d = some (d ++ kvs.map metaField) := by
   induction kvs generalizing d with
   | nil => simp [recurseKids]
   | cons kv r ih =>
@@ -162,22 +162,22 @@ theorem recurseKids_leaves (kvs : List (String × Txt)) (d : Dict)
     have hv0 : v ≠ .s "" := hv (k, v) (by simp)
     have hd0 : d.lookup k = none := hd (k, v) (by simp)
     simp only [List.map_cons, List.nodup_cons, List.mem_map, not_exists, not_and] at hnd
-    have hstep : recurseKids (leafOf (k, v) :: r.map leafOf) d = recurseKids (r.map leafOf) (d ++ [(k, Val.field v [])]) := by
-      simp [recurseKids, recurse, leafOf, hv0, addChild, Elem.tag, hd0]
+    have hstep : recurseKids (metaLeaf (k, v) :: r.map metaLeaf) d = recurseKids (r.map metaLeaf) (d ++ [(k, Val.field v [])]) := by
+      simp [recurseKids, recurse, metaLeaf, hv0, addChild, Elem.tag, hd0]
     rw [List.map_cons, hstep, ih _ (fun x hx => hv x (by simp [hx])) hnd.2]
-    · simp [fieldOf]
+    · simp [metaField]
     · intro x hx
       have hne : x.1 ≠ k := fun e => hnd.1 x hx e
       rw [lookup_append_other d k x.1 _ hne]
       exact hd x (by simp [hx])
 
-theorem mapM_text (f : String × Val → R (String × Txt)) (hf : ∀ k t, f (k, .field t []) = .ok (k, t)) (kvs : List (String × Txt)) :
-    (kvs.map fieldOf).mapM f = .ok kvs := by
+theorem mapM_metaText (f : String × Val → R (String × Txt)) (hf : ∀ k t, f (k, .field t []) = .ok (k, t)) (kvs : List (String × Txt)) :
+    (kvs.map metaField).mapM f = .ok kvs := by
   induction kvs with
   | nil => rfl
   | cons kv r ih =>
     obtain ⟨k, v⟩ := kv
-    simp only [List.map_cons, List.mapM_cons, fieldOf, hf, ih, bind, Except.bind, pure, Except.pure]
+    simp only [List.map_cons, List.mapM_cons, metaField, hf, ih, bind, Except.bind, pure, Except.pure]
 
 theorem mapM_map_ok {α β : Type} (f : α → β) (g : β → R α) (l : List α) (h : ∀ a ∈ l, g (f a) = .ok a) :
     (l.map f).mapM g = .ok l := by
@@ -202,7 +202,7 @@ theorem tdmPath_meta (scale : String) (path : List String) (set : List Obs) (hle
 /-! ### one segment -/
 
 /-- what the writer and the reader need of one (path, set) pair -/
-structure SetWf (path : List String) (set : List Obs) : Prop where
+structure TdmSetWf (path : List String) (set : List Obs) : Prop where
   ne : set ≠ []
   obs : ∀ o ∈ set, o.path = path ∧ o.epoch ≠ .s "" ∧ o.value ≠ .s "" ∧ o.kind ∈ obsKinds
   parts : ∀ p ∈ path, p ≠ ""
@@ -211,7 +211,7 @@ structure SetWf (path : List String) (set : List Obs) : Prop where
 /-- the body of the segment loop of `tdm._dumps_xml` -/
 def tdmSegW (scale : String) (ps : List String × List Obs) : R Elem := do
   let obs ← ps.2.mapM obsXml
-  pure <| Elem.node "segment" [.node "metadata" ((tdmMeta scale ps.1 ps.2).map leafOf), .node "data" obs]
+  pure <| Elem.node "segment" [.node "metadata" ((tdmMeta scale ps.1 ps.2).map metaLeaf), .node "data" obs]
 
 theorem angle_trig (set : List Obs) (o : Obs) (ho : o ∈ set) (hk : o.kind = "Azimut" ∨ o.kind = "Elevation") :
     tdmAngleTrig.any (dedup (set.map (·.kind))).contains = true := by
@@ -221,7 +221,7 @@ theorem angle_trig (set : List Obs) (o : Obs) (ho : o ∈ set) (hk : o.kind = "A
   · rw [List.contains_iff_mem]
     exact (mem_dedup _ _).2 (List.mem_map_of_mem ho)
 
-theorem obsWf_of_set (path : List String) (set : List Obs) (h : SetWf path set) (angle : Option String) :
+theorem obsWf_of_set (path : List String) (set : List Obs) (h : TdmSetWf path set) (angle : Option String) :
     ∀ o ∈ set, ObsWf (if tdmAngleTrig.any (dedup (set.map (·.kind))).contains then some "AZEL" else angle) path o := by
   intro o ho
   obtain ⟨h1, h2, h3, h4⟩ := h.obs o ho
@@ -233,7 +233,7 @@ theorem obsWf_of_set (path : List String) (set : List Obs) (h : SetWf path set) 
   · exact Or.inr (Or.inr ⟨Or.inl h4, by rw [angle_trig set o ho (Or.inl h4)]; rfl⟩)
   · exact Or.inr (Or.inr ⟨Or.inr h4, by rw [angle_trig set o ho (Or.inr h4)]; rfl⟩)
 
-theorem seg_xml_roundtrip (scale : String) (hs : scale ≠ "") (path : List String) (set : List Obs) (h : SetWf path set) :
+theorem seg_xml_roundtrip (scale : String) (hs : scale ≠ "") (path : List String) (set : List Obs) (h : TdmSetWf path set) :
     ∃ e V, tdmSegW scale (path, set) = .ok e ∧ e.tag = "segment" ∧ recurse e = some (.dict V) ∧
       ∀ angle, ∃ angle', loadTdmSegXml angle V = .ok (angle', scale, set) := by
   obtain ⟨es, D, x, g1, g2, g3, _⟩ := observations_xml_roundtrip (some "AZEL") path set
@@ -247,7 +247,7 @@ theorem seg_xml_roundtrip (scale : String) (hs : scale ≠ "") (path : List Stri
     | nil => simp [recurseKids] at g2; subst g2; simp at g3
     | cons _ _ => rfl
   obtain ⟨o0, r0, hset⟩ := List.exists_cons_of_ne_nil h.ne
-  have hmd : recurseKids ((tdmMeta scale path set).map leafOf) [] = some ((tdmMeta scale path set).map fieldOf) := by
+  have hmd : recurseKids ((tdmMeta scale path set).map metaLeaf) [] = some ((tdmMeta scale path set).map metaField) := by
     have := recurseKids_leaves (tdmMeta scale path set) []
       (by
         rw [tdmMeta_eq]
@@ -261,10 +261,10 @@ theorem seg_xml_roundtrip (scale : String) (hs : scale ≠ "") (path : List Stri
       (by rw [tdmMeta_eq]; exact metaG_nodup _ _ _ _ _ _ _ h.len)
       (by intros; rfl)
     simpa using this
-  have hmne : ((tdmMeta scale path set).map leafOf).isEmpty = false := by
+  have hmne : ((tdmMeta scale path set).map metaLeaf).isEmpty = false := by
     rw [tdmMeta_eq]; simp [tdmMetaG]
-  refine ⟨Elem.node "segment" [.node "metadata" ((tdmMeta scale path set).map leafOf), .node "data" es],
-    [("metadata", .dict ((tdmMeta scale path set).map fieldOf)), ("data", .dict D)], ?_, rfl, ?_, ?_⟩
+  refine ⟨Elem.node "segment" [.node "metadata" ((tdmMeta scale path set).map metaLeaf), .node "data" es],
+    [("metadata", .dict ((tdmMeta scale path set).map metaField)), ("data", .dict D)], ?_, rfl, ?_, ?_⟩
   · simp only [tdmSegW, g1, bind, Except.bind, pure, Except.pure]
   · have htn : ∀ t cs, (Elem.node t cs).tag = t := fun _ _ => rfl
     simp [recurse, recurseKids, hmd, hmne, hes, g2, addChild, htn, List.lookup]
@@ -277,11 +277,11 @@ theorem seg_xml_roundtrip (scale : String) (hs : scale ≠ "") (path : List Stri
     cases k2
     rw [g3] at k3
     cases k3
-    have hmt : ((tdmMeta scale path set).map fieldOf).mapM (fun (k, v) => do pure (k, ← v.text) : String × Val → R (String × Txt))
-        = .ok (tdmMeta scale path set) := mapM_text _ (fun _ _ => rfl) _
-    have hgm : getItem [("metadata", Val.dict ((tdmMeta scale path set).map fieldOf)), ("data", Val.dict D)] "metadata"
-        = .ok (Val.dict ((tdmMeta scale path set).map fieldOf)) := by simp [getItem, List.lookup]
-    have hgd : getItem [("metadata", Val.dict ((tdmMeta scale path set).map fieldOf)), ("data", Val.dict D)] "data"
+    have hmt : ((tdmMeta scale path set).map metaField).mapM (fun (k, v) => do pure (k, ← v.text) : String × Val → R (String × Txt))
+        = .ok (tdmMeta scale path set) := mapM_metaText _ (fun _ _ => rfl) _
+    have hgm : getItem [("metadata", Val.dict ((tdmMeta scale path set).map metaField)), ("data", Val.dict D)] "metadata"
+        = .ok (Val.dict ((tdmMeta scale path set).map metaField)) := by simp [getItem, List.lookup]
+    have hgd : getItem [("metadata", Val.dict ((tdmMeta scale path set).map metaField)), ("data", Val.dict D)] "data"
         = .ok (Val.dict D) := by simp [getItem, List.lookup]
     have hgo : getItem D "observation" = .ok x := by simp [getItem, g3]
     have hscale : metaStr (tdmMeta scale path set) "TIME_SYSTEM" = .ok scale := by
@@ -309,7 +309,7 @@ theorem seg_xml_roundtrip (scale : String) (hs : scale ≠ "") (path : List Stri
 /-! ### all segments -/
 
 theorem segs_xml_roundtrip (scale : String) (hs : scale ≠ "") (sets : List (List String × List Obs))
-    (h : ∀ ps ∈ sets, SetWf ps.1 ps.2) :
+    (h : ∀ ps ∈ sets, TdmSetWf ps.1 ps.2) :
     ∃ es vs, sets.mapM (tdmSegW scale) = .ok es ∧ (∀ e ∈ es, e.tag = "segment") ∧ es.map recurse = vs.map some ∧
       (∀ v ∈ vs, v.isList = false) ∧ es.length = sets.length ∧
       ∀ angle, tdmSegsXml vs angle = .ok (sets.map fun ps => (scale, ps.2)) := by
@@ -342,7 +342,7 @@ theorem dedup_ne_nil {α : Type} [BEq α] (l : List α) (h : l ≠ []) : dedup l
   | nil => exact absurd rfl h
   | cons x xs => simp [dedup]
 
-theorem tdmSets_wf (m : Tdm) (h : TdmWf m) : ∀ ps ∈ tdmSets m, SetWf ps.1 ps.2 := by
+theorem tdmSets_wf (m : Tdm) (h : TdmWf m) : ∀ ps ∈ tdmSets m, TdmSetWf ps.1 ps.2 := by
   intro ps hps
   simp only [tdmSets, List.mem_map] at hps
   obtain ⟨p, hp, rfl⟩ := hps
@@ -381,7 +381,7 @@ theorem tdmXml_eq (m : Tdm) (h : TdmWf m) :
         pure <| Elem.node "segment" [.node "metadata" ((tdmMeta m.scale path set).map fun (k, v) => Elem.leaf k [] v), .node "data" obs])
       = tdmSegW m.scale := by
     funext ⟨path, set⟩
-    simp only [tdmSegW, leafOf_eq]
+    simp only [tdmSegW, metaLeaf_eq]
   unfold tdmXml
   rw [hany, hf]
   rfl
@@ -457,11 +457,11 @@ theorem tdm_xml_single_path (m : Tdm) (h : TdmWf m) (hp : ∀ o ∈ m.obs, ∀ o
 
 /-! ### the hypotheses are satisfiable -/
 
-def obA (k e : String) : Obs := { kind := k, path := ["STA", "SAT", "STA"], epoch := .s e, value := .s "1234.500000" }
-def obB (k e : String) : Obs := { kind := k, path := ["STB", "SAT"], epoch := .s e, value := .s "99.000000" }
+def tdmObA (k e : String) : Obs := { kind := k, path := ["STA", "SAT", "STA"], epoch := .s e, value := .s "1234.500000" }
+def tdmObB (k e : String) : Obs := { kind := k, path := ["STB", "SAT"], epoch := .s e, value := .s "99.000000" }
 
 /-- two interleaved paths (a two-way path with a repeated participant, a one-way path), all four classes -/
-def tdmEx2 : Tdm := ⟨"UTC", [obA "Azimut" "t0", obB "Range" "t0", obA "Elevation" "t1", obB "Doppler" "t1", obA "Range" "t2"]⟩
+def tdmEx2 : Tdm := ⟨"UTC", [tdmObA "Azimut" "t0", tdmObB "Range" "t0", tdmObA "Elevation" "t1", tdmObB "Doppler" "t1", tdmObA "Range" "t2"]⟩
 
 theorem tdmEx2_wf : TdmWf tdmEx2 :=
   { scale := by decide, obs_ne := by simp [tdmEx2],
@@ -475,11 +475,11 @@ theorem tdmEx2_wf : TdmWf tdmEx2 :=
       rcases ho with rfl | rfl | rfl | rfl | rfl <;> exact ⟨by decide, by decide, by decide⟩ }
 
 example : (tdmXml tdmEx2 >>= loadTdmXml) =
-    .ok ("UTC", [[obA "Azimut" "t0", obA "Elevation" "t1", obA "Range" "t2"], [obB "Range" "t0", obB "Doppler" "t1"]]) :=
+    .ok ("UTC", [[tdmObA "Azimut" "t0", tdmObA "Elevation" "t1", tdmObA "Range" "t2"], [tdmObB "Range" "t0", tdmObB "Doppler" "t1"]]) :=
   tdm_xml_load_dump_id tdmEx2 tdmEx2_wf
 
 /-- a single two-way path, angles and range -/
-def tdmEx1 : Tdm := ⟨"UTC", [obA "Azimut" "t0", obA "Elevation" "t0", obA "Range" "t1"]⟩
+def tdmEx1 : Tdm := ⟨"UTC", [tdmObA "Azimut" "t0", tdmObA "Elevation" "t0", tdmObA "Range" "t1"]⟩
 
 theorem tdmEx1_wf : TdmWf tdmEx1 :=
   { scale := by decide, obs_ne := by simp [tdmEx1],
